@@ -1,6 +1,378 @@
-//! cw-multi-test worlds for system-level replays (filled in per property).
-use serde_json::{json, Value};
+//! cw-multi-test world running the REAL factory / pair / router contracts and cw20-base.
+//! A case of kind "scenario" describes the world and a list of steps; the output is, per step,
+//! success/failure plus a full snapshot (pair reserves, LP supplies, watched accounts' balances).
+use std::collections::BTreeMap;
 
-pub fn run_case(kind: &str, _case: &Value) -> Value {
-    json!({"error": format!("unknown case kind {}", kind)})
+use cosmwasm_std::{to_binary, Addr, Coin, Decimal, Empty, Uint128};
+use cw20::{BalanceResponse, Cw20Coin, Cw20ExecuteMsg, Cw20QueryMsg, MinterResponse, TokenInfoResponse};
+use cw_multi_test::{App, AppBuilder, Contract, ContractWrapper, Executor};
+use serde_json::{json, Value};
+use std::str::FromStr;
+
+use bignumber::Decimal256;
+use haloswap::asset::{Asset, AssetInfo, CreatePairRequirements, LPTokenInfo, PairInfo};
+use haloswap::factory::{ExecuteMsg as FactoryExecuteMsg, InstantiateMsg as FactoryInstantiateMsg, QueryMsg as FactoryQueryMsg};
+use haloswap::pair::{Cw20HookMsg as PairHookMsg, ExecuteMsg as PairExecuteMsg, QueryMsg as PairQueryMsg};
+use haloswap::router::{Cw20HookMsg as RouterHookMsg, ExecuteMsg as RouterExecuteMsg, InstantiateMsg as RouterInstantiateMsg, QueryMsg as RouterQueryMsg, SwapOperation};
+
+fn factory_code() -> Box<dyn Contract<Empty>> {
+    Box::new(ContractWrapper::new(halo_factory::contract::execute, halo_factory::contract::instantiate, halo_factory::contract::query).with_reply(halo_factory::contract::reply))
+}
+fn pair_code() -> Box<dyn Contract<Empty>> {
+    Box::new(ContractWrapper::new(halo_pair::contract::execute, halo_pair::contract::instantiate, halo_pair::contract::query).with_reply(halo_pair::contract::reply))
+}
+fn router_code() -> Box<dyn Contract<Empty>> {
+    Box::new(ContractWrapper::new(halo_router::contract::execute, halo_router::contract::instantiate, halo_router::contract::query))
+}
+fn token_code() -> Box<dyn Contract<Empty>> {
+    Box::new(ContractWrapper::new(cw20_base::contract::execute, cw20_base::contract::instantiate, cw20_base::contract::query))
+}
+
+fn s(v: &Value) -> String {
+    match v { Value::String(x) => x.clone(), Value::Number(n) => n.to_string(), _ => panic!("expected string/number: {}", v) }
+}
+fn u(v: &Value) -> Uint128 { Uint128::from(s(v).parse::<u128>().expect("u128")) }
+fn dec_raw(v: &Value) -> Decimal { Decimal::from_atomics(u(v), 18).expect("decimal") }
+fn opt_dec(v: &Value) -> Option<Decimal> { if v.is_null() { None } else { Some(dec_raw(v)) } }
+fn opt_s(v: &Value) -> Option<String> { if v.is_null() { None } else { Some(s(v)) } }
+
+pub struct World {
+    app: App,
+    admin: Addr,
+    factory: Addr,
+    router: Addr,
+    tokens: BTreeMap<String, Addr>,
+    pairs: Vec<PairInfo>,
+    watch: Vec<String>,
+}
+
+impl World {
+    fn asset_info(&self, v: &Value) -> AssetInfo {
+        if let Some(t) = v.get("token") {
+            let name = s(t);
+            let addr = self.tokens.get(&name).map(|a| a.to_string()).unwrap_or(name);
+            AssetInfo::Token { contract_addr: addr }
+        } else {
+            AssetInfo::NativeToken { denom: s(&v["native"]) }
+        }
+    }
+    fn balance(&self, info: &AssetInfo, who: &str) -> Uint128 {
+        match info {
+            AssetInfo::NativeToken { denom } => self.app.wrap().query_balance(who, denom.clone()).map(|c| c.amount).unwrap_or_default(),
+            AssetInfo::Token { contract_addr } => {
+                let r: Result<BalanceResponse, _> = self.app.wrap().query_wasm_smart(contract_addr.clone(), &Cw20QueryMsg::Balance { address: who.to_string() });
+                r.map(|b| b.balance).unwrap_or_default()
+            }
+        }
+    }
+    fn supply(&self, token: &str) -> Uint128 {
+        let r: Result<TokenInfoResponse, _> = self.app.wrap().query_wasm_smart(token.to_string(), &Cw20QueryMsg::TokenInfo {});
+        r.map(|t| t.total_supply).unwrap_or_default()
+    }
+    fn all_assets(&self) -> Vec<AssetInfo> {
+        let mut v: Vec<AssetInfo> = vec![];
+        for p in &self.pairs { for a in p.asset_infos.iter() { if !v.contains(a) { v.push(a.clone()); } } }
+        v
+    }
+    fn snapshot(&self) -> Value {
+        let mut pairs = vec![];
+        for p in &self.pairs {
+            // re-read the pair's own description (decimals can change)
+            let own: Result<PairInfo, _> = self.app.wrap().query_wasm_smart(p.contract_addr.clone(), &PairQueryMsg::Pair {});
+            let fac: Result<PairInfo, _> = self.app.wrap().query_wasm_smart(self.factory.clone(), &FactoryQueryMsg::Pair { asset_infos: p.asset_infos.clone() });
+            pairs.push(json!({
+                "addr": p.contract_addr,
+                "reserves": [self.balance(&p.asset_infos[0], &p.contract_addr).to_string(), self.balance(&p.asset_infos[1], &p.contract_addr).to_string()],
+                "lp_supply": self.supply(&p.liquidity_token).to_string(),
+                "lp_self": self.balance(&AssetInfo::Token { contract_addr: p.liquidity_token.clone() }, &p.liquidity_token).to_string(),
+                "own_decimals": own.as_ref().map(|o| json!(o.asset_decimals)).unwrap_or(Value::Null),
+                "factory_decimals": fac.as_ref().map(|o| json!(o.asset_decimals)).unwrap_or(Value::Null),
+            }));
+        }
+        let assets = self.all_assets();
+        let mut accts = serde_json::Map::new();
+        let mut names: Vec<String> = self.watch.clone();
+        names.push(self.router.to_string());
+        for w in names {
+            let mut m = serde_json::Map::new();
+            for a in &assets { m.insert(a.to_string(), json!(self.balance(a, &w).to_string())); }
+            for (i, p) in self.pairs.iter().enumerate() {
+                m.insert(format!("lp{}", i), json!(self.balance(&AssetInfo::Token { contract_addr: p.liquidity_token.clone() }, &w).to_string()));
+            }
+            accts.insert(w, Value::Object(m));
+        }
+        // per-asset totals over watched accounts + pairs + router (conservation checks)
+        json!({"pairs": pairs, "accounts": accts, "router": self.router.to_string()})
+    }
+
+    fn create_pair(&mut self, p: &Value) -> Result<(), String> {
+        let infos = [self.asset_info(&p["assets"][0]), self.asset_info(&p["assets"][1])];
+        let wl: Vec<Addr> = p["whitelist"].as_array().map(|a| a.iter().map(|x| Addr::unchecked(s(x))).collect()).unwrap_or_default();
+        let mins = p.get("min").and_then(|m| m.as_array()).map(|m| (u(&m[0]), u(&m[1]))).unwrap_or((Uint128::zero(), Uint128::zero()));
+        let cr = p.get("commission").filter(|c| !c.is_null()).map(|c| { let raw = bignumber::Uint256::from_str(&s(c)).unwrap(); Decimal256(raw.0) });
+        let sender = p.get("sender").map(|x| Addr::unchecked(s(x))).unwrap_or(self.admin.clone());
+        let msg = FactoryExecuteMsg::CreatePair {
+            asset_infos: infos.clone(),
+            requirements: CreatePairRequirements { whitelist: wl, first_asset_minimum: mins.0, second_asset_minimum: mins.1 },
+            commission_rate: cr,
+            lp_token_info: LPTokenInfo { lp_token_name: "lptoken".into(), lp_token_symbol: "LPT".into(), lp_token_decimals: None },
+        };
+        self.app.execute_contract(sender, self.factory.clone(), &msg, &[]).map_err(|e| format!("{:#}", e))?;
+        let info: PairInfo = self.app.wrap().query_wasm_smart(self.factory.clone(), &FactoryQueryMsg::Pair { asset_infos: infos }).map_err(|e| e.to_string())?;
+        self.pairs.push(info);
+        Ok(())
+    }
+
+    fn funds_of(v: &Value) -> Vec<Coin> {
+        let mut out = vec![];
+        if let Some(m) = v.as_object() { for (d, a) in m { out.push(Coin { denom: d.clone(), amount: u(a) }); } }
+        if let Some(arr) = v.as_array() { for c in arr { out.push(Coin { denom: s(&c["denom"]), amount: u(&c["amount"]) }); } }
+        out
+    }
+
+    fn step(&mut self, st: &Value) -> Result<Value, String> {
+        let op = st["op"].as_str().unwrap_or("");
+        let sender = Addr::unchecked(st.get("sender").map(s).unwrap_or_else(|| self.admin.to_string()));
+        match op {
+            "create_pair" => { self.create_pair(st)?; Ok(json!({})) }
+            "provide" => {
+                let p = self.pairs[st["pair"].as_u64().unwrap() as usize].clone();
+                let amts = [u(&st["amounts"][0]), u(&st["amounts"][1])];
+                let mut funds = vec![];
+                for i in 0..2 {
+                    match &p.asset_infos[i] {
+                        AssetInfo::Token { contract_addr } => {
+                            let allow = st.get("allowances").map(|a| u(&a[i])).unwrap_or(amts[i]);
+                            if !allow.is_zero() {
+                                self.app.execute_contract(sender.clone(), Addr::unchecked(contract_addr), &Cw20ExecuteMsg::IncreaseAllowance { spender: p.contract_addr.clone(), amount: allow, expires: None }, &[]).map_err(|e| format!("allowance: {:#}", e))?;
+                            }
+                        }
+                        AssetInfo::NativeToken { denom } => { if !amts[i].is_zero() { funds.push(Coin { denom: denom.clone(), amount: amts[i] }); } }
+                    }
+                }
+                if let Some(f) = st.get("funds") { funds = Self::funds_of(f); }
+                let mut assets = [Asset { info: p.asset_infos[0].clone(), amount: amts[0] }, Asset { info: p.asset_infos[1].clone(), amount: amts[1] }];
+                if st.get("reverse_order").and_then(|b| b.as_bool()).unwrap_or(false) { assets.swap(0, 1); }
+                if let Some(ov) = st.get("assets") { assets = [Asset { info: self.asset_info(&ov[0]), amount: u(&ov[0]["amount"]) }, Asset { info: self.asset_info(&ov[1]), amount: u(&ov[1]["amount"]) }]; }
+                funds.sort_by(|a, b| a.denom.cmp(&b.denom));
+                let msg = PairExecuteMsg::ProvideLiquidity { assets, slippage_tolerance: opt_dec(&st["slippage"]), receiver: opt_s(&st["receiver"]) };
+                self.app.execute_contract(sender, Addr::unchecked(&p.contract_addr), &msg, &funds).map_err(|e| format!("{:#}", e))?;
+                Ok(json!({}))
+            }
+            "swap" => {
+                let p = self.pairs[st["pair"].as_u64().unwrap() as usize].clone();
+                let oi = st["offer_idx"].as_u64().unwrap() as usize;
+                let amount = u(&st["amount"]);
+                let named_idx = st.get("named_idx").and_then(|x| x.as_u64()).map(|x| x as usize).unwrap_or(oi);
+                let named_info = if let Some(n) = st.get("named") { self.asset_info(n) } else { p.asset_infos[named_idx].clone() };
+                let named_amount = st.get("named_amount").map(u).unwrap_or(amount);
+                let offer_asset = Asset { info: named_info, amount: named_amount };
+                let (bp, ms, to) = (opt_dec(&st["belief_price"]), opt_dec(&st["max_spread"]), opt_s(&st["to"]));
+                let res = match &p.asset_infos[oi] {
+                    AssetInfo::NativeToken { denom } => {
+                        let mut funds = if amount.is_zero() { vec![] } else { vec![Coin { denom: denom.clone(), amount }] };
+                        if let Some(f) = st.get("funds") { funds = Self::funds_of(f); }
+                        funds.sort_by(|a, b| a.denom.cmp(&b.denom));
+                        self.app.execute_contract(sender, Addr::unchecked(&p.contract_addr), &PairExecuteMsg::Swap { offer_asset, belief_price: bp, max_spread: ms, to }, &funds)
+                    }
+                    AssetInfo::Token { contract_addr } => {
+                        if st.get("direct").and_then(|b| b.as_bool()).unwrap_or(false) {
+                            let funds = st.get("funds").map(Self::funds_of).unwrap_or_default();
+                            self.app.execute_contract(sender, Addr::unchecked(&p.contract_addr), &PairExecuteMsg::Swap { offer_asset, belief_price: bp, max_spread: ms, to }, &funds)
+                        } else {
+                            let hook = PairHookMsg::Swap { offer_asset, belief_price: bp, max_spread: ms, to };
+                            self.app.execute_contract(sender, Addr::unchecked(contract_addr), &Cw20ExecuteMsg::Send { contract: p.contract_addr.clone(), amount, msg: to_binary(&hook).unwrap() }, &[])
+                        }
+                    }
+                };
+                let r = res.map_err(|e| format!("{:#}", e))?;
+                let mut attrs = serde_json::Map::new();
+                for ev in r.events.iter() { if ev.ty == "wasm" { for a in ev.attributes.iter() { attrs.insert(a.key.clone(), json!(a.value)); } } }
+                Ok(json!({"attrs": attrs}))
+            }
+            "withdraw" => {
+                let p = self.pairs[st["pair"].as_u64().unwrap() as usize].clone();
+                let amount = u(&st["amount"]);
+                let via = st.get("via_token").map(|t| self.tokens.get(&s(t)).map(|a| a.to_string()).unwrap_or(s(t))).unwrap_or(p.liquidity_token.clone());
+                self.app.execute_contract(sender, Addr::unchecked(via), &Cw20ExecuteMsg::Send { contract: p.contract_addr.clone(), amount, msg: to_binary(&PairHookMsg::WithdrawLiquidity {}).unwrap() }, &[]).map_err(|e| format!("{:#}", e))?;
+                Ok(json!({}))
+            }
+            "donate" => {
+                let p = self.pairs[st["pair"].as_u64().unwrap() as usize].clone();
+                let idx = st["idx"].as_u64().unwrap() as usize;
+                let amount = u(&st["amount"]);
+                match &p.asset_infos[idx] {
+                    AssetInfo::NativeToken { denom } => { self.app.send_tokens(sender, Addr::unchecked(&p.contract_addr), &[Coin { denom: denom.clone(), amount }]).map_err(|e| format!("{:#}", e))?; }
+                    AssetInfo::Token { contract_addr } => { self.app.execute_contract(sender, Addr::unchecked(contract_addr), &Cw20ExecuteMsg::Transfer { recipient: p.contract_addr.clone(), amount }, &[]).map_err(|e| format!("{:#}", e))?; }
+                }
+                Ok(json!({}))
+            }
+            "transfer" => {
+                let info = self.asset_info(&st["asset"]);
+                let amount = u(&st["amount"]);
+                let to = s(&st["to"]);
+                match &info {
+                    AssetInfo::NativeToken { denom } => { self.app.send_tokens(sender, Addr::unchecked(to), &[Coin { denom: denom.clone(), amount }]).map_err(|e| format!("{:#}", e))?; }
+                    AssetInfo::Token { contract_addr } => { self.app.execute_contract(sender, Addr::unchecked(contract_addr), &Cw20ExecuteMsg::Transfer { recipient: to, amount }, &[]).map_err(|e| format!("{:#}", e))?; }
+                }
+                Ok(json!({}))
+            }
+            "allow" => {
+                let info = self.asset_info(&st["asset"]);
+                if let AssetInfo::Token { contract_addr } = info {
+                    self.app.execute_contract(sender, Addr::unchecked(contract_addr), &Cw20ExecuteMsg::IncreaseAllowance { spender: s(&st["spender"]), amount: u(&st["amount"]), expires: None }, &[]).map_err(|e| format!("{:#}", e))?;
+                }
+                Ok(json!({}))
+            }
+            "simulate" | "reverse_simulate" => {
+                let p = self.pairs[st["pair"].as_u64().unwrap() as usize].clone();
+                let idx = st["idx"].as_u64().unwrap() as usize;
+                let a = Asset { info: p.asset_infos[idx].clone(), amount: u(&st["amount"]) };
+                if op == "simulate" {
+                    let r: haloswap::pair::SimulationResponse = self.app.wrap().query_wasm_smart(p.contract_addr.clone(), &PairQueryMsg::Simulation { offer_asset: a }).map_err(|e| e.to_string())?;
+                    Ok(json!({"return": r.return_amount.to_string(), "spread": r.spread_amount.to_string(), "commission": r.commission_amount.to_string()}))
+                } else {
+                    let r: haloswap::pair::ReverseSimulationResponse = self.app.wrap().query_wasm_smart(p.contract_addr.clone(), &PairQueryMsg::ReverseSimulation { ask_asset: a }).map_err(|e| e.to_string())?;
+                    Ok(json!({"offer": r.offer_amount.to_string(), "spread": r.spread_amount.to_string(), "commission": r.commission_amount.to_string()}))
+                }
+            }
+            "router_swap" | "router_simulate" | "router_reverse_simulate" => {
+                let ops: Vec<SwapOperation> = st["route"].as_array().unwrap().iter().map(|h| SwapOperation::HaloSwap { offer_asset_info: self.asset_info(&h[0]), ask_asset_info: self.asset_info(&h[1]) }).collect();
+                let amount = u(&st["amount"]);
+                if op == "router_simulate" {
+                    let r: haloswap::router::SimulateSwapOperationsResponse = self.app.wrap().query_wasm_smart(self.router.clone(), &RouterQueryMsg::SimulateSwapOperations { offer_amount: amount, operations: ops }).map_err(|e| e.to_string())?;
+                    return Ok(json!({"amount": r.amount.to_string()}));
+                }
+                if op == "router_reverse_simulate" {
+                    let r: haloswap::router::SimulateSwapOperationsResponse = self.app.wrap().query_wasm_smart(self.router.clone(), &RouterQueryMsg::ReverseSimulateSwapOperations { ask_amount: amount, operations: ops }).map_err(|e| e.to_string())?;
+                    return Ok(json!({"amount": r.amount.to_string()}));
+                }
+                let min = if st["minimum_receive"].is_null() { None } else { Some(u(&st["minimum_receive"])) };
+                let to = opt_s(&st["to"]);
+                let first = match &ops.get(0) { Some(SwapOperation::HaloSwap { offer_asset_info, .. }) => Some(offer_asset_info.clone()), None => None };
+                let first = if let Some(e) = st.get("entry") { Some(self.asset_info(e)) } else { first };
+                let res = match first {
+                    Some(AssetInfo::Token { contract_addr }) => {
+                        let hook = RouterHookMsg::ExecuteSwapOperations { operations: ops, minimum_receive: min, to };
+                        self.app.execute_contract(sender, Addr::unchecked(contract_addr), &Cw20ExecuteMsg::Send { contract: self.router.to_string(), amount, msg: to_binary(&hook).unwrap() }, &[])
+                    }
+                    Some(AssetInfo::NativeToken { denom }) => {
+                        let funds = if amount.is_zero() { vec![] } else { vec![Coin { denom, amount }] };
+                        self.app.execute_contract(sender, self.router.clone(), &RouterExecuteMsg::ExecuteSwapOperations { operations: ops, minimum_receive: min, to }, &funds)
+                    }
+                    None => self.app.execute_contract(sender, self.router.clone(), &RouterExecuteMsg::ExecuteSwapOperations { operations: ops, minimum_receive: min, to }, &[]),
+                };
+                res.map_err(|e| format!("{:#}", e))?;
+                Ok(json!({}))
+            }
+            "add_native_decimals" => {
+                let denom = s(&st["denom"]);
+                self.app.execute_contract(sender, self.factory.clone(), &FactoryExecuteMsg::AddNativeTokenDecimals { denom, decimals: st["decimals"].as_u64().unwrap() as u8 }, &[]).map_err(|e| format!("{:#}", e))?;
+                Ok(json!({}))
+            }
+            "query_native_decimals" => {
+                let r: haloswap::factory::NativeTokenDecimalsResponse = self.app.wrap().query_wasm_smart(self.factory.clone(), &FactoryQueryMsg::NativeTokenDecimals { denom: s(&st["denom"]) }).map_err(|e| e.to_string())?;
+                Ok(json!({"decimals": r.decimals}))
+            }
+            "query_pair" => {
+                let infos = [self.asset_info(&st["assets"][0]), self.asset_info(&st["assets"][1])];
+                let r: PairInfo = self.app.wrap().query_wasm_smart(self.factory.clone(), &FactoryQueryMsg::Pair { asset_infos: infos }).map_err(|e| e.to_string())?;
+                let own: PairInfo = self.app.wrap().query_wasm_smart(r.contract_addr.clone(), &PairQueryMsg::Pair {}).map_err(|e| e.to_string())?;
+                Ok(json!({"factory": serde_json::to_value(&r).unwrap(), "own": serde_json::to_value(&own).unwrap()}))
+            }
+            "query_pairs" => {
+                let start_after = if st["start_after"].is_null() { None } else { Some([self.asset_info(&st["start_after"][0]), self.asset_info(&st["start_after"][1])]) };
+                let limit = st["limit"].as_u64().map(|x| x as u32);
+                let r: haloswap::factory::PairsResponse = self.app.wrap().query_wasm_smart(self.factory.clone(), &FactoryQueryMsg::Pairs { start_after, limit }).map_err(|e| e.to_string())?;
+                Ok(json!({"pairs": r.pairs.iter().map(|p| json!({"addr": p.contract_addr, "assets": serde_json::to_value(&p.asset_infos).unwrap()})).collect::<Vec<_>>()}))
+            }
+            "exec_raw" => {
+                // arbitrary JSON message to a named contract: "factory" | "router" | "pair<i>" | token name | address
+                let target = s(&st["contract"]);
+                let addr = if target == "factory" { self.factory.clone() } else if target == "router" { self.router.clone() }
+                    else if let Some(i) = target.strip_prefix("pair") { Addr::unchecked(self.pairs[i.parse::<usize>().unwrap()].contract_addr.clone()) }
+                    else if let Some(i) = target.strip_prefix("lp") { Addr::unchecked(self.pairs[i.parse::<usize>().unwrap()].liquidity_token.clone()) }
+                    else if let Some(a) = self.tokens.get(&target) { a.clone() } else { Addr::unchecked(target) };
+                let funds = st.get("funds").map(Self::funds_of).unwrap_or_default();
+                let msg: Value = self.subst(&st["msg"]);
+                self.app.execute_contract(sender, addr, &msg, &funds).map_err(|e| format!("{:#}", e))?;
+                Ok(json!({}))
+            }
+            _ => Err(format!("unknown op {}", op)),
+        }
+    }
+
+    // replace "$pair0" / "$router" / "$factory" / "$tok:A" / "$lp0" placeholders inside raw JSON messages
+    fn subst(&self, v: &Value) -> Value {
+        match v {
+            Value::String(x) => {
+                if x == "$router" { return json!(self.router.to_string()); }
+                if x == "$factory" { return json!(self.factory.to_string()); }
+                if let Some(i) = x.strip_prefix("$pair") { return json!(self.pairs[i.parse::<usize>().unwrap()].contract_addr); }
+                if let Some(i) = x.strip_prefix("$lp") { return json!(self.pairs[i.parse::<usize>().unwrap()].liquidity_token); }
+                if let Some(t) = x.strip_prefix("$tok:") { return json!(self.tokens.get(t).map(|a| a.to_string()).unwrap_or(t.to_string())); }
+                if let Some(b) = x.strip_prefix("$b64:") { let inner: Value = serde_json::from_str(b).unwrap(); return json!(to_binary(&self.subst(&inner)).unwrap()); }
+                v.clone()
+            }
+            Value::Array(a) => Value::Array(a.iter().map(|x| self.subst(x)).collect()),
+            Value::Object(m) => Value::Object(m.iter().map(|(k, x)| (k.clone(), self.subst(x))).collect()),
+            _ => v.clone(),
+        }
+    }
+}
+
+pub fn build(case: &Value) -> World {
+    let admin = Addr::unchecked("admin");
+    let natives = case.get("natives").cloned().unwrap_or(json!({}));
+    let app = AppBuilder::new().build(|router, _, storage| {
+        if let Some(m) = natives.as_object() {
+            for (who, coins) in m {
+                let cs: Vec<Coin> = coins.as_object().unwrap().iter().map(|(d, a)| Coin { denom: d.clone(), amount: u(a) }).collect();
+                router.bank.init_balance(storage, &Addr::unchecked(who.clone()), cs).unwrap();
+            }
+        }
+    });
+    let mut w = World { app, admin: admin.clone(), factory: Addr::unchecked(""), router: Addr::unchecked(""), tokens: BTreeMap::new(), pairs: vec![], watch: vec![] };
+    let token_id = w.app.store_code(token_code());
+    let pair_id = w.app.store_code(pair_code());
+    let factory_id = w.app.store_code(factory_code());
+    let router_id = w.app.store_code(router_code());
+    w.factory = w.app.instantiate_contract(factory_id, admin.clone(), &FactoryInstantiateMsg { pair_code_id: pair_id, token_code_id: token_id }, &[], "factory", None).unwrap();
+    w.router = w.app.instantiate_contract(router_id, admin.clone(), &RouterInstantiateMsg { halo_factory: w.factory.to_string() }, &[], "router", None).unwrap();
+    if let Some(ts) = case.get("tokens").and_then(|t| t.as_array()) {
+        for t in ts {
+            let name = s(&t["name"]);
+            let bals: Vec<Cw20Coin> = t["balances"].as_object().map(|m| m.iter().map(|(a, v)| Cw20Coin { address: a.clone(), amount: u(v) }).collect()).unwrap_or_default();
+            let addr = w.app.instantiate_contract(token_id, admin.clone(), &cw20_base::msg::InstantiateMsg {
+                name: format!("token{}", name), symbol: "TOK".into(), decimals: t["decimals"].as_u64().unwrap_or(6) as u8,
+                initial_balances: bals, mint: Some(MinterResponse { minter: admin.to_string(), cap: None }), marketing: None }, &[], name.clone(), None).unwrap();
+            w.tokens.insert(name, addr);
+        }
+    }
+    if let Some(nd) = case.get("native_decimals").and_then(|t| t.as_object()) {
+        for (denom, d) in nd {
+            // the factory must hold a positive balance of the denom to register it
+            w.app.send_tokens(admin.clone(), w.factory.clone(), &[Coin { denom: denom.clone(), amount: Uint128::new(1) }]).expect("admin needs 1 unit of each native denom");
+            w.app.execute_contract(admin.clone(), w.factory.clone(), &FactoryExecuteMsg::AddNativeTokenDecimals { denom: denom.clone(), decimals: d.as_u64().unwrap() as u8 }, &[]).unwrap();
+        }
+    }
+    if let Some(ws) = case.get("watch").and_then(|t| t.as_array()) { w.watch = ws.iter().map(s).collect(); }
+    if let Some(ps) = case.get("pairs").and_then(|t| t.as_array()) { for p in ps { w.create_pair(p).expect("pair creation in world setup"); } }
+    w
+}
+
+pub fn run_case(kind: &str, case: &Value) -> Value {
+    if kind != "scenario" { return json!({"error": format!("unknown case kind {}", kind)}); }
+    let mut w = build(case);
+    let mut out = vec![];
+    let first = w.snapshot();
+    for st in case["steps"].as_array().cloned().unwrap_or_default() {
+        let res = w.step(&st);
+        let snap = w.snapshot();
+        match res {
+            Ok(v) => out.push(json!({"ok": true, "res": v, "snap": snap})),
+            Err(e) => out.push(json!({"ok": false, "err": e, "snap": snap})),
+        }
+    }
+    json!({"init": first, "steps": out, "tokens": w.tokens.iter().map(|(k, v)| (k.clone(), json!(v.to_string()))).collect::<serde_json::Map<_, _>>() })
 }
